@@ -59,7 +59,7 @@ claim("C04", "property-based testing: generated ODE networks, differential vs ma
       "6k (quick) / 60k (thorough) generated linear, nonlinear and time-dependent networks on uniform and non-uniform "
       "grids through py_simulate_model and DeterministicSimulator: exact initial row and time axis, every row within "
       "2e-5 (1+max|x|) of the closed-form / DOP853(1e-11) solution of the reference right-hand side (which includes the "
-      "delayed stoichiometry).", _TB + "; scipy's expm and DOP853", "DESIGN.md section 4 C04")
+      "delayed stoichiometry).", _TB + "; a 30-digit mpmath matrix exponential and scipy's DOP853", "DESIGN.md section 4 C04")
 
 claim("C11", "property-based testing: statistical differential vs volume-scaled master equation + growth/division invariants (Hypothesis)",
       "(a) 500 / 5000 generated networks (incl. open birth-death families via finite-state projection) x 10k / 40k "
